@@ -1234,15 +1234,28 @@ package moss
 //@   loop 1: invariant forall g *Footer :: g != f && footerDepth(g) <= footerDepth(f) ==> g.refs == old(g.refs) && g.ChildFooters == old(g.ChildFooters) && g.SegmentLocs == old(g.SegmentLocs) && g.ss == old(g.ss)
 //@   loop 1: invariant forall g *Footer, c string :: footerDepth(g) <= footerDepth(f) && has(g.ChildFooters, c) ==> g.ChildFooters[c] == old(g.ChildFooters[c])
 
+// Stacks of child collections hang below their parent stack as a tree (ghost
+// depth); a parent stack holds one count on each child stack and gives it up
+// when its own count reaches zero (S29).
+//@ pure abstract func stackDepth(ss *segmentStack) int
+//@ assume-invariant stackTree: forall p *segmentStack, c string :: has(p.childSegStacks, c) ==> stackDepth(p.childSegStacks[c]) == stackDepth(p) + 1
+//@ assume-invariant stackNoSharing: forall p *segmentStack, c string, d string :: has(p.childSegStacks, c) && has(p.childSegStacks, d) && c != d ==> p.childSegStacks[c] != p.childSegStacks[d]
+
 //@ func (ss *segmentStack) decRef()
-//@   props C15
+//@   props C15 C02
 //@   requires ss != nil
-//@   modifies ss.refs, ss.lowerLevelSnapshot, heap(SnapshotWrapper.refCount), heap(SnapshotWrapper.ss), heap(SnapshotWrapper.closer), heap(CollectionStats.TotSnapshotInternalClose)
+//@   modifies heap(segmentStack.refs), heap(segmentStack.lowerLevelSnapshot), heap(SnapshotWrapper.refCount), heap(SnapshotWrapper.ss), heap(SnapshotWrapper.closer), heap(CollectionStats.TotSnapshotInternalClose)
 //@   ensures @count ss.refs == old(ss.refs) - 1
 //@   ensures @kept ss.refs > 0 ==> ss.lowerLevelSnapshot == old(ss.lowerLevelSnapshot) &&
 //@       (ss.lowerLevelSnapshot != nil ==> ss.lowerLevelSnapshot.refCount == old(ss.lowerLevelSnapshot.refCount))
-//@   ensures @released ss.refs <= 0 ==> ss.lowerLevelSnapshot == nil &&
-//@       (old(ss.lowerLevelSnapshot) != nil ==> old(ss.lowerLevelSnapshot).refCount == old(ss.lowerLevelSnapshot.refCount) - 1)
+//@   ensures @keptChildren ss.refs > 0 ==> (forall g *segmentStack :: g != ss ==> g.refs == old(g.refs) && g.lowerLevelSnapshot == old(g.lowerLevelSnapshot))
+//@   ensures @released ss.refs <= 0 ==> ss.lowerLevelSnapshot == nil
+//@   ensures @children ss.refs <= 0 ==> (forall c string :: has(ss.childSegStacks, c) ==> ss.childSegStacks[c].refs == old(ss.childSegStacks[c].refs) - 1)
+//@   ensures @othersKept forall g *segmentStack :: g != ss && stackDepth(g) <= stackDepth(ss) ==> g.refs == old(g.refs) && g.lowerLevelSnapshot == old(g.lowerLevelSnapshot)
+//@   loop 1: modifies heap(segmentStack.refs), heap(segmentStack.lowerLevelSnapshot), heap(SnapshotWrapper.refCount), heap(SnapshotWrapper.ss), heap(SnapshotWrapper.closer), heap(CollectionStats.TotSnapshotInternalClose)
+//@   loop 1: invariant ss.refs == old(ss.refs) - 1 && ss.refs <= 0 && ss.lowerLevelSnapshot == nil
+//@   loop 1: invariant forall c string :: has(ss.childSegStacks, c) ==> ss.childSegStacks[c].refs == old(ss.childSegStacks[c].refs) - ite(visited(c), 1, 0)
+//@   loop 1: invariant forall g *segmentStack :: g != ss && stackDepth(g) <= stackDepth(ss) ==> g.refs == old(g.refs) && g.lowerLevelSnapshot == old(g.lowerLevelSnapshot)
 
 //@ func (w *SnapshotWrapper) Close() (err error)
 //@   props C15
@@ -1309,7 +1322,7 @@ package moss
 
 //@ func (ss *segmentStack) Close() error
 //@   props C15
-//@   modifies ss.refs, ss.lowerLevelSnapshot, heap(SnapshotWrapper.refCount), heap(SnapshotWrapper.ss), heap(SnapshotWrapper.closer), heap(CollectionStats.TotSnapshotInternalClose)
+//@   modifies heap(segmentStack.refs), heap(segmentStack.lowerLevelSnapshot), heap(SnapshotWrapper.refCount), heap(SnapshotWrapper.ss), heap(SnapshotWrapper.closer), heap(CollectionStats.TotSnapshotInternalClose)
 //@   ensures ss != nil ==> ss.refs == old(ss.refs) - 1
 
 // rv.a == cur.a ++ [b.segment] (the latter only when the batch has operations at this level)
